@@ -1,10 +1,12 @@
 import RichModel.Lemmas.AnsiChars
+import RichModel.Lemmas.AnsiPrint
+import RichModel.Lemmas.AnsiSafe
 /-!
 # C03 — the ANSI stream written means exactly what the styled segments say
 
-Property theorems only, 32 of them (helper lemmas live in `Lemmas/AnsiTerm`, `AnsiCodes`, `AnsiRender`,
-`AnsiBuffer`, `AnsiShape`, `AnsiSpec`, `AnsiWire`, `AnsiChars`; this file imports `Lemmas/AnsiChars`, which
-brings the others in).
+Property theorems only (helper lemmas live in `Lemmas/AnsiTerm`, `AnsiCodes`, `AnsiRender`, `AnsiBuffer`, `AnsiShape`,
+`AnsiSpec`, `AnsiWire`, `AnsiChars` and, since deepening round 4, `AnsiPrint` — the route from `Console.print` to the
+terminal — and `AnsiSafe` — ESC inside text).
 
 * encoder model: `Model/AnsiRender.lean` — `Style._make_ansi_codes` with its per-object `_ansi` cache
   (`StyleObj.ansi`; the cache is *state*), `Style.render`, `Segment.remove_color`,
@@ -373,6 +375,144 @@ theorem repaired_styled_control_dropped :
     renderBuffer .repaired Cfg.repaired P toFile [⟨bold, none⟩] [⟨"\x1b[2J".toList, some 0, true⟩] = .ok ([], [⟨bold, none⟩]) := by
   decide
 
+
+/-! ## deepening round 4 — `Console.print` → `_buffer` → `_render_buffer` → terminal (`Model/AnsiPrint.lean`) -/
+
+/-- **print_means_segments** — one `console.print(…, style=S, crop=…, soft_wrap=…)`, from the segments the renderables
+rendered to, to what the terminal shows.  Every configuration, every width, every cell-width function, cropped or
+not, any number of segments; sound heap, references in range.  Nothing raises.  `Segment.apply_style` allocates
+`extra` — brand-new objects, nothing else changes — and the segments `applied` it yields keep texts and control flags
+and carry, as values, `S + own style` (`Style.__add__`; nothing for a control segment).  `print` appends their crop
+(`finishPrint`: C13's `split_and_crop_lines`, `pad=False`, or nothing under soft wrap / `crop=False`), and what is
+then written, interpreted by the independent terminal model, is exactly `expectedCells` of what was appended; the
+terminal is back in its default state; every cache stays sound. -/
+theorem print_means_segments (cc : Cfg) (cw : Char → Nat) (cfg : Config) (env : PEnv) (heap : Heap) (p : PrintCall)
+    (hok : HeapOK cc P heap) (hp : PrintOK heap p) :
+    ∃ applied extra toks heap2,
+      printBuffer cw env heap p = .ok (finishPrint cw env p applied, heap ++ extra) ∧
+      viewSegs (heap ++ extra) applied =
+        p.segs.map (fun s => (s.text, s.control,
+          printedStyle ((p.style.bind (heap[·]?)).map (·.style)) s.control (segStyle heap s))) ∧
+      printWrite .repaired cc P cw cfg env heap p = .ok (toks, heap2) ∧
+      interp toks = expectedCells cc P cfg (heap ++ extra) (finishPrint cw env p applied) ∧
+      finalState toks = {} ∧ HeapOK cc P heap2 ∧ heap2.map (·.style) = (heap ++ extra).map (·.style) := by
+  obtain ⟨applied, extra, toks, heap2, h1, h2, _, h4, h5, _, h7, h8⟩ :=
+    printWrite_means .repaired rfl rfl cc P palettes_ok cw cfg env heap p hok hp
+  exact ⟨applied, extra, toks, heap2, h1, h2, h4, by simp [interp, h5], by simp [finalState, h5], h7, h8⟩
+
+/-- What is shown depends on the printed segments only through (text, control flag, style *value*). -/
+theorem expected_cells_by_value (cc : Cfg) (cfg : Config) (heap : Heap) (segs : List Seg) :
+    expectedCells cc P cfg heap segs = cellsOfV cc P cfg (viewSegs heap segs) :=
+  expectedCells_eq_view cc P cfg heap segs
+
+/-- The crop of `print` adds no ESC: blanks and line feeds are all it adds to the characters that went in. -/
+theorem print_crop_adds_no_esc (cw : Char → Nat) (env : PEnv) (p : PrintCall) (segs : List Seg)
+    (h : ∀ s ∈ segs, ESC ∉ s.text) : ∀ s ∈ finishPrint cw env p segs, ESC ∉ s.text :=
+  finishPrint_noEsc cw env p segs h
+
+/-- **print_means_segments at the level of characters**, for `print` without `style=` (cropped or not): no ESC in the
+rendered texts, no ESC / BEL in the links — then the characters written to `console.file`, read by the terminal's
+tokenizer, show exactly `expectedCells` of the cropped segments, and the terminal ends in its default state.
+PARTIAL — full statement: the same with `style = some j`; missing: `LinkClean` of the objects `apply_style`
+allocates (the link of `a + b` is one of the two links — not proved here). -/
+theorem print_means_segments_chars_partial (cc : Cfg) (cw : Char → Nat) (cfg : Config) (env : PEnv) (heap : Heap)
+    (p : PrintCall) (hst : p.style = none) (hok : HeapOK cc P heap) (hrefs : RefsOK heap p.segs)
+    (hclean : NoEscIn heap p.segs) :
+    ∃ chars heap2, printChars .repaired cc P cw cfg env heap p = .ok (chars, heap2) ∧
+      interp (tokenize chars) = expectedCells cc P cfg heap (finishPrint cw env p p.segs) ∧
+      finalState (tokenize chars) = {} ∧ HeapOK cc P heap2 := by
+  have hr2 := finishPrint_refs cw env p heap p.segs hrefs
+  have hc2 : NoEscIn heap (finishPrint cw env p p.segs) := ⟨finishPrint_noEsc cw env p p.segs hclean.1, hclean.2⟩
+  obtain ⟨chars, heap2, h1, h2, _, h4⟩ :=
+    renderBufferChars_means .repaired rfl rfl cc P palettes_ok cfg heap _ hok hr2 hc2
+  refine ⟨chars, heap2, ?_, by simp [interp, h4], by simp [finalState, h4], h2⟩
+  simp only [renderBufferChars] at h1
+  simp only [printChars, printWrite, printBuffer, hst, bind, Except.bind]
+  exact h1
+
+/-- One step of a history with prints keeps every cache sound and never raises (repaired code). -/
+theorem print_step_sound (cc : Cfg) (cw : Char → Nat) (heap : Heap) (hok : HeapOK cc P heap) (cfg : Config) (env : PEnv)
+    (p : PrintCall) (hp : PrintOK heap p) :
+    ∃ heap' toks, stepPOp .repaired cc P cw heap (.print cfg env p) = .ok (heap', some toks) ∧ HeapOK cc P heap' ∧
+      finalState toks = {} := by
+  obtain ⟨_, _, toks, heap2, _, _, h4, _, h6, h7, _⟩ := print_means_segments cc cw cfg env heap p hok hp
+  exact ⟨heap2, toks, by simp [stepPOp, h4, bind, Except.bind], h7, h6⟩
+
+/-! ## deepening round 4 — ESC inside text (`Lemmas/AnsiSafe.lean`) -/
+
+/-- **The wire format reads back under the weaker hypothesis `SafeText`**: an ESC inside a text is harmless as long as
+it is followed, inside that text, by a character other than `[` and `]` — it cannot start an SGR or OSC 8 sequence
+of the terminal model, whatever follows the text.  (`tokenize_reads_back` is the special case "no ESC at all".) -/
+theorem tokenize_reads_back_safe (toks : List Tok) (h : ∀ t ∈ toks, WFTokS t) :
+    tokenize (serialise toks) = normalise toks ∧ interp (tokenize (serialise toks)) = interp toks := by
+  have e := tokenize_serialise_safe toks h
+  exact ⟨e, by simp only [interp, e, interpFrom_normalise]⟩
+
+/-- `tokenize_reads_back`'s hypothesis implies the weaker one. -/
+theorem no_esc_is_safe (t : Tok) (h : WFTok t) : WFTokS t := wfTokS_of_wfTok t h
+
+/-- **What the terminal model shows when a text does contain escape sequences**: the terminal reads characters, not
+tokens — a text that is itself the serialisation of (well-formed) tokens `inner` is read as those tokens, in place.
+So a control segment such as `\x1b[1m` is *executed*, and so is the same string inside ordinary text. -/
+theorem embedded_sequences_are_executed (pre inner post : List Tok) (h : ∀ t ∈ pre ++ inner ++ post, WFTokS t) :
+    tokenize (serialise (pre ++ [.text (serialise inner)] ++ post)) = normalise (pre ++ inner ++ post) ∧
+    interp (tokenize (serialise (pre ++ [.text (serialise inner)] ++ post))) = interp (pre ++ inner ++ post) := by
+  rw [serialise_text_inner]
+  exact tokenize_reads_back_safe _ h
+
+/-- The hypothesis cannot be dropped: an unstyled segment whose text is a complete SGR sequence changes how the
+*next* segment is shown (`x` comes out bold) — `stream_means_segments_chars` is false without `NoEscIn`. -/
+theorem esc_in_text_breaks_chars_statement :
+    ∃ chars heap', renderBufferChars .repaired Cfg.repaired P onTruecolor [] [⟨"\x1b[1m".toList, none, false⟩, ⟨['x'], none, false⟩] = .ok (chars, heap') ∧
+      interp (tokenize chars) = [⟨'x', { bold := true }, none⟩] ∧
+      interp (tokenize chars) ≠ expectedCells Cfg.repaired P onTruecolor [] [⟨"\x1b[1m".toList, none, false⟩, ⟨['x'], none, false⟩] :=
+  ⟨_, _, rfl, by decide, by decide⟩
+
+/-- …nor can `SafeText` be weakened to "no complete sequence inside one text": an ESC at the very end of a text joins
+the `[1m` that starts the next segment. -/
+theorem trailing_esc_joins_next_segment :
+    tokenize (serialise [.text [ESC], .text "[1mx".toList]) = [.sgr [1], .text ['x']] := by decide
+
+/-! ## deepening round 4 — the two code tables, row by row -/
+
+/-- `Color.get_ansi_codes` for every `ColorType` × foreground / background, on well-formed colours. -/
+theorem ansi_codes_table (c : Color) (fg : Bool) :
+    (c.type = .default → getAnsiCodes c fg = .ok [if fg then 39 else 49]) ∧
+    (∀ n, (c.type = .standard ∨ c.type = .windows) → c.number = some n →
+      getAnsiCodes c fg = .ok [(if fg then (if n < 8 then 30 else 82) else (if n < 8 then 40 else 92)) + n]) ∧
+    (∀ n, c.type = .eightBit → c.number = some n → getAnsiCodes c fg = .ok [if fg then 38 else 48, 5, n]) ∧
+    (∀ t, c.type = .truecolor → c.triplet = some t →
+      getAnsiCodes c fg = .ok [if fg then 38 else 48, 2, t.red, t.green, t.blue]) ∧
+    ((c.type = .standard ∨ c.type = .windows ∨ c.type = .eightBit) → c.number = none →
+      getAnsiCodes c fg = .error .assertionError) ∧
+    (c.type = .truecolor → c.triplet = none → getAnsiCodes c fg = .error .assertionError) := by
+  refine ⟨?_, ?_, ?_, ?_, ?_, ?_⟩
+  · intro h; simp [getAnsiCodes, h]
+  · intro n h hn
+    rcases h with h | h <;> by_cases h8 : n < 8 <;> cases fg <;>
+      simp [getAnsiCodes, h, hn, assertSome, bind, Except.bind, h8]
+  · intro n h hn; simp [getAnsiCodes, h, hn, assertSome, bind, Except.bind]
+  · intro t h ht; simp [getAnsiCodes, h, ht, assertSome, bind, Except.bind]
+  · intro h hn
+    rcases h with h | h | h <;> simp [getAnsiCodes, h, hn, assertSome, bind, Except.bind]
+  · intro h ht; simp [getAnsiCodes, h, ht, assertSome, bind, Except.bind]
+
+/-- `Style._make_ansi_codes`, attribute part, as a table lookup: for every attribute word (all 2^13 sets and beyond)
+the parameters are the entries of `Style._style_map` at the set bits, in bit order — the interpreter's reading of
+the 13 aspects (`aspectCode`) and rich's own table agree row by row. -/
+theorem attr_codes_table (a : Nat) :
+    attrCodes a = ((List.range 13).filter fun i => a.testBit i).map fun i => styleMap[i]! := by
+  rw [attr_codes_are_the_set_bits]
+  apply List.map_congr_left
+  intro i hi
+  have h13 : i < 13 := by simpa using (List.mem_filter.mp hi).1
+  have rows : ∀ k, k < 13 → aspectCode k = styleMap[k]! := by decide
+  exact rows i h13
+
+/-- The 13 rows of `_style_map`. -/
+theorem style_map_rows : (List.range 13).map (fun i => attrCodes (1 <<< i)) =
+    [[1], [2], [3], [4], [5], [6], [7], [8], [9], [21], [51], [52], [53]] := by decide
+
 /-! ## Non-vacuity: the hypotheses are met by concrete, non-trivial values -/
 
 /-- `Style(color="#ff8800", bgcolor="color(100)", bold=True, dim=False, strike=True, link="http://x")` -/
@@ -423,5 +563,18 @@ example : tokenize "\x1b]8;id=*;http://x\x1b\\\x1b[1;9;38;2;255;136;0;48;5;100mh
      .text ['!']] := by decide
 example : (renderBufferChars .repaired Cfg.repaired P onTruecolor [⟨fancy, none⟩] [⟨['h', 'i'], some 0, false⟩, ⟨['!'], none, false⟩]).map (·.1) =
     .ok "\x1b]8;id=*;http://x\x1b\\\x1b[1;9;38;2;255;136;0;48;5;100mhi\x1b[0m\x1b]8;;\x1b\\!".toList := by decide
+
+-- deepening round 4: `PrintOK` / `print_means_segments` on a concrete call — a styled segment with an embedded line
+-- feed and a control segment, printed with `style=bold` on a console 3 cells wide: `fancy` + bold is allocated at index 2
+example : PrintOK [⟨bold, none⟩, ⟨fancy, none⟩] { segs := [⟨"abcd\ne".toList, some 1, false⟩, ⟨['\r'], some 1, true⟩], style := some 0 } :=
+  ⟨(by intro seg hs i hi; simp at hs; rcases hs with rfl | rfl <;> cases hi <;> decide), (by intro j hj; cases hj; decide)⟩
+example : (printBuffer (fun _ => 1) ⟨3, false⟩ [⟨bold, none⟩, ⟨fancy, none⟩]
+      { segs := [⟨"abcd\ne".toList, some 1, false⟩, ⟨['\r'], some 1, true⟩], style := some 0 }).map (fun r => (r.1, r.2.length)) =
+    .ok ([⟨"abc".toList, some 2, false⟩, ⟨['\n'], none, false⟩, ⟨['e'], some 2, false⟩, ⟨['\r'], none, true⟩], 3) := by decide
+example : SafeText "a\x1bcb".toList ∧ ¬ SafeText "a\x1b[".toList ∧ ¬ SafeText "a\x1b".toList := by decide
+example : ∀ t ∈ [Tok.text "a\x1bcb".toList, Tok.sgr [1]], WFTokS t := by
+  intro t ht; simp at ht; rcases ht with rfl | rfl
+  · show SafeText _; decide
+  · trivial
 
 end RichModel.C03
